@@ -146,7 +146,8 @@ func Prelude(li *LangInfo, native bool) string {
 	// --- 11-bit digits as iterated division
 	w("(declare-fun f_shr11 (Int Int) Int)")
 	w("(assert (forall ((v Int)) (! (= (f_shr11 v 0) v) :pattern ((f_shr11 v 0)))))")
-	w("(assert (forall ((v Int) (p Int)) (! (=> (>= p 1) (= (f_shr11 v p) (div (f_shr11 v (- p 1)) 2048))) :pattern ((f_shr11 v p)))))")
+	// (the step equation shr11(v,p) = shr11(v,p-1) div 2048 is instantiated by the generator where a
+	// proof needs it - `unfold` clauses - instead of being a self-triggering quantified axiom)
 	w("(define-fun f_digit ((v Int) (p Int)) Int (mod (f_shr11 v p) 2048))")
 	// --- math/big helpers
 	w("(declare-fun f_bigshl (Int Int) Int)")
